@@ -18,6 +18,8 @@ LIMIT_S = 25.0
 def probe(job):
     """run one compile in this (forked) worker; report verdict, time and surviving children"""
     src, opts = job
+    if isinstance(src, str):
+        src = src.replace("PV_WORKER_TOKEN", f"pv_started_under_{os.getpid()}")
     core.setup_impl_import()
     from stationeers_pytrapic.compiler import compile_code
     from stationeers_pytrapic.compile_pass import CompileOptions
@@ -41,9 +43,11 @@ def probe(job):
             st = open(f"/proc/{d}/stat").read()
             rest = st[st.rindex(")") + 2:].split()
             state, ppid = rest[0], int(rest[1])
-            if ppid == me and state != "Z":
-                cmd = open(f"/proc/{d}/cmdline").read().replace("\0", " ")[:80]
-                alive.append((int(d), state, cmd))
+            cmd = open(f"/proc/{d}/cmdline").read().replace("\0", " ")
+            # direct children, and anything a helper started before it went away (such a process is
+            # re-parented; the programs of this check mark what they start with a token naming this worker)
+            if (ppid == me or f"pv_started_under_{me}" in cmd) and state != "Z" and int(d) != me:
+                alive.append((int(d), state, cmd[:80]))
         except Exception:
             continue
     out["children_alive"] = alive
@@ -128,7 +132,8 @@ CONSTEXPR = [
     ("exits", "@constexpr\ndef g():\n    import sys\n    sys.exit(3)\ndb.Setting = g()\n"),
     ("forbidden", "@constexpr\ndef g():\n    return open('/etc/passwd').read()\ndb.Setting = g()\n"),
     ("huge", "@constexpr\ndef g():\n    return 'x' * 3000000\ndb.Setting = HASH(g())\n"),
-    ("spawns", "@constexpr\ndef g():\n    import subprocess, sys\n    subprocess.Popen([sys.executable, '-c', 'import time; time.sleep(30)'])\n    return 1\ndb.Setting = g()\n"),
+    ("spawns", "@constexpr\ndef g():\n    import subprocess, sys\n    subprocess.Popen([sys.executable, '-c', 'import time; time.sleep(30)  # PV_WORKER_TOKEN'])\n    return 1\ndb.Setting = g()\n"),
+    ("spawns_then_loops", "@constexpr\ndef g():\n    import subprocess, sys\n    subprocess.Popen([sys.executable, '-c', 'import time; time.sleep(30)  # PV_WORKER_TOKEN'])\n    while True:\n        pass\ndb.Setting = g()\n"),
 ]
 
 
